@@ -54,11 +54,11 @@ Proof. exact flate_refuses. Qed.
 Print Assumptions C09_flate_refuses.
 
 (* The monitor the correspondence check evaluates on the implementation's answers is the
-   boolean form of the statements above: it is true of the model itself, so it can only fire on
-   a case where the implementation departs from the model (entry point ParseXMLResponse). *)
+   boolean form of the statements above: it is true of the model itself, for both entry points,
+   so it can only fire on a case where the implementation departs from the model. *)
 Theorem C09_monitor_holds_of_model :
-  forall c, pc_entry c = 0 -> spcase_agree c = true -> c09_spec c = true.
-Proof. exact c09_monitor. Qed.
+  forall c, spcase_agree c = true -> c09_spec c = true.
+Proof. intros c H. destruct (monitors_hold_of_model c H) as [_ [_ [_ [_ M]]]]; exact M. Qed.
 Print Assumptions C09_monitor_holds_of_model.
 
 (* ---- the IdP side: authentication requests and SP metadata (models of the IDP group) ---- *)
